@@ -206,13 +206,38 @@ func (p *Pool) Put(x interface{}) {
 // Go replaces a `go` statement; src is its source text.
 func Go(src string, fn func()) { sched.Go(src, fn) }
 
-// SortedKeys returns the keys of m in ascending order (used for `range` over
-// package-level maps, see harness/instrument).
+// MapPerm selects the order in which `range` over a package-level map visits its
+// keys in the instrumented flavours: the MapPerm-th permutation (lexicographic, modulo
+// n!) of the ascending key order. 0 = ascending. Go leaves the order unspecified, so
+// every value is a legal environment answer; the harness enumerates them.
+var MapPerm int
+
+// SortedKeys returns the keys of m in the order selected by MapPerm (used for `range`
+// over package-level maps, see harness/instrument).
 func SortedKeys[K cmp.Ordered, V any](m map[K]V) []K {
 	keys := make([]K, 0, len(m))
 	for k := range m {
 		keys = append(keys, k)
 	}
 	sort.Slice(keys, func(i, j int) bool { return keys[i] < keys[j] })
-	return keys
+	if MapPerm == 0 || len(keys) < 2 {
+		return keys
+	}
+	// k-th lexicographic permutation (factorial number system)
+	n := len(keys)
+	fact := 1
+	for i := 2; i <= n; i++ {
+		fact *= i
+	}
+	k := MapPerm % fact
+	pool := append([]K(nil), keys...)
+	out := make([]K, 0, n)
+	for i := n; i >= 1; i-- {
+		fact /= i
+		j := k / fact
+		k %= fact
+		out = append(out, pool[j])
+		pool = append(pool[:j], pool[j+1:]...)
+	}
+	return out
 }
